@@ -6,7 +6,7 @@
   already-evaluated operands.  The recursive evaluator is MongoModel/Expr.lean.
 
   Everything the model does not express answers `unmodelled` (non-dyadic float results,
-  non-ASCII strings, aware datetimes, `str()` of containers, …) — never a guess.
+  non-ASCII strings, aware datetimes, `str()` of containers, `$dateToString`, …) — never a guess.
 -/
 import MongoModel.Bson
 
@@ -749,6 +749,75 @@ def toStringOp (v : Val) : R Val :=
   | .date _ (some _) => unmodelled
   | v => do pure (.str (← pyStr v))
 
+/-! ### `$dateFromParts` (aggregate.py:791-825) -/
+
+/-- Python truthiness, as `value or default` reads it -/
+def pyFalsy : Val → Bool
+  | .null => true
+  | .bool b => !b
+  | .int n => n == 0
+  | .dbl m _ => m == 0
+  | .str s => s == ""
+  | .arr xs => xs.isEmpty
+  | .doc fs => fs.isEmpty
+  | .date _ _ | .oid _ => false
+
+/-- `out_value.get(key, dflt) or dflt`: an absent part, and one that is null, 0, false, "" … too,
+    is the default -/
+def partOr (key : String) (dflt : Int) (fs : Fields) : Val :=
+  match dget key fs with
+  | none => .int dflt
+  | some v => if pyFalsy v then .int dflt else v
+
+/-- an argument of `datetime.datetime(…)` as a C int: `__index__` (ints, booleans; anything else
+    is a TypeError), then the range of a C int (OverflowError) -/
+def cInt : Val → R Int
+  | .int n => if decide (-2147483648 ≤ n) && decide (n ≤ 2147483647) then .ok n else .error .other
+  | .bool b => .ok (if b then 1 else 0)
+  | _ => .error .typeErr
+
+def isLeap (y : Int) : Bool := y % 4 == 0 && (y % 100 != 0 || y % 400 == 0)
+
+/-- `datetime._days_in_month` -/
+def daysInMonth (y m : Int) : Int :=
+  if m = 2 then (if isLeap y then 29 else 28)
+  else if m = 4 || m = 6 || m = 9 || m = 11 then 30 else 31
+
+/-- `datetime.datetime(year, month, day, hour, minute, second)` in µs since the epoch: the
+    arguments are converted in order (TypeError / OverflowError), then their ranges are checked in
+    order (ValueError): nothing is carried -/
+def pyDatetime (y mo d h mi s : Val) : R Int := do
+  let y ← cInt y
+  let mo ← cInt mo
+  let d ← cInt d
+  let h ← cInt h
+  let mi ← cInt mi
+  let s ← cInt s
+  if y < 1 || y > 9999 then .error .valueErr
+  else if mo < 1 || mo > 12 then .error .valueErr
+  else if d < 1 || d > daysInMonth y mo then .error .valueErr
+  else if h < 0 || h > 23 then .error .valueErr
+  else if mi < 0 || mi > 59 then .error .valueErr
+  else if s < 0 || s > 59 then .error .valueErr
+  else .ok (daysFromCivil y mo d * usPerDay + h * 3600000000 + mi * 60000000 + s * 1000000)
+
+/-- `$dateFromParts` on the parsed operand: a document with exactly one of `year` /
+    `isoWeekYear`; the iso parts and `timezone` are refused; `year` as it is, the other parts
+    `or` their default; the milliseconds are added as a `timedelta` (any number, carried) -/
+def dateFromPartsOp (v : Val) : R Val :=
+  match v with
+  | .doc fs =>
+    if dhas "year" fs == dhas "isoWeekYear" fs then .error .opFail
+    else if ["isoWeekYear", "isoWeek", "isoDayOfWeek", "timezone"].any (fun k => dhas k fs) then
+      .error .notImpl
+    else do
+      let u ← pyDatetime ((dget "year" fs).getD .null) (partOr "month" 1 fs) (partOr "day" 1 fs)
+        (partOr "hour" 0 fs) (partOr "minute" 0 fs) (partOr "second" 0 fs)
+      match toPyNum (partOr "millisecond" 0 fs) with
+      | some n => datePlus u n
+      | none => .error .typeErr
+  | _ => .error .opFail
+
 /-- a date operator on the parsed operand (aggregate.py:586-678) -/
 def dateOp (op : String) (v : Val) : R Val :=
   if datePartOps.contains op then
@@ -758,6 +827,8 @@ def dateOp (op : String) (v : Val) : R Val :=
     | .date _ (some _) => unmodelled
     | _ => .error .attrErr
   else if op = "$isoDayOfWeek" || op = "$isoWeek" || op = "$isoWeekYear" then .error .notImpl
+  else if op = "$dateFromParts" then dateFromPartsOp v
+  else if op = "$dateFromString" then .error .notImpl   -- parsed, then "not implemented"
   else unmodelled
 
 /-! ### `_GROUPING_OPERATOR_MAP` inside `$project` (aggregate.py:175-219, 411-414) -/
